@@ -15,6 +15,7 @@ pub mod c11;
 pub mod c12;
 pub mod c13;
 pub mod c14;
+pub mod c15;
 pub mod c16;
 pub mod c17;
 pub mod c18;
@@ -37,6 +38,7 @@ pub fn run(ctx: &Ctx) -> Option<PropReport> {
         "C12" => c12::run(ctx),
         "C13" => c13::run(ctx),
         "C14" => c14::run(ctx),
+        "C15" => c15::run(ctx),
         "C16" => c16::run(ctx),
         "C17" => c17::run(ctx),
         "C18" => c18::run(ctx),
@@ -62,6 +64,7 @@ pub fn replay(ctx: &Ctx, sub: &str, case: &Value) -> Result<(), Fail> {
         "C12" => c12::replay(ctx, sub, case),
         "C13" => c13::replay(ctx, sub, case),
         "C14" => c14::replay(ctx, sub, case),
+        "C15" => c15::replay(ctx, sub, case),
         "C16" => c16::replay(ctx, sub, case),
         "C17" => c17::replay(ctx, sub, case),
         "C18" => c18::replay(ctx, sub, case),
@@ -76,6 +79,9 @@ pub fn probe_known(ctx: &Ctx, key: &str) -> Option<bool> {
     let _ = ctx;
     if key.starts_with("C04/") {
         return c04::probe_known(key);
+    }
+    if key.starts_with("C15/") {
+        return c15::probe_known(key);
     }
     if key.starts_with("C06/") {
         return c06::probe_known(key);
